@@ -14,6 +14,7 @@ import RosuModel.Model.SuspicionWire
 import RosuModel.Model.StackingWire
 import RosuModel.Model.LifeWire
 import RosuModel.Model.FiniteWire
+import RosuModel.Model.ManiaPatternWire
 
 open Rosu
 
@@ -62,6 +63,11 @@ def handle (line : String) : String :=
   | ["LIFE", mode, objs, sig, hist] => Lifetime.handleLife mode objs sig hist
   | "GSQ" :: mode :: args => GenState.handleGSQ mode args
   | "C09" :: args => Finite.handleFinite args
+  | ["MPH", total, rng, x, sample, ct, stair, cd, prev] => ManiaPattern.Wire.handleMPH total rng x sample ct stair cd prev
+  | ["MPP", total, rng, x, sample, ct, cd, prev, span, start, end_, seg, nodes] =>
+    ManiaPattern.Wire.handleMPP total rng x sample ct cd prev span start end_ seg nodes
+  | ["MPE", total, rng, sample, prev, hold, short] => ManiaPattern.Wire.handleMPE total rng sample prev hold short
+  | ["MPT", total, seed, cd, objs] => ManiaPattern.Wire.handleMPT total seed cd objs
   | _ => "bad-op"
 
 partial def loop (h : IO.FS.Stream) (out : IO.FS.Stream) : IO Unit := do
